@@ -167,7 +167,7 @@ func c12Class(w, g string) string {
 func init() {
 	Register(&Prop{
 		ID:    "C12",
-		Rule:  "one execution = one core case where every node carries recording tests and PostTransforms; ≤k focus units range over configuration {plain, required, catch, default, two tests} × PostTransform configuration {one, none, two, first errors, second errors, first returns *ZogIssue} × input {valid, missing, failing, uncoercible}, all field visit orders, both modes, with two WithCtxValue keys / with none after an earlier call that passed some; the invocation log (callback, argument value, pointer-ness, ctx.Get values, order, count), pointer identity with destination nodes and the issues are compared with the reference model; non-trivial = deviating case; distinct = distinct (skeleton, mode, expected log)",
+		Rule:  "one execution = one core case where every node carries recording tests and PostTransforms; ≤k focus units range over configuration {plain, required, catch, default, two tests} × PostTransform configuration {one, none, two, first errors, second errors, first returns *ZogIssue} × input {valid, missing, failing, uncoercible}, all field visit orders, both modes, with two WithCtxValue keys / with none after an earlier call that passed some; the invocation log (callback, argument value, pointer-ness, ctx.Get values, order, count), pointer identity with destination nodes and the issues are compared with the reference model; non-trivial = deviating case; distinct = distinct (skeleton, mode, expected log). plus " + layoutRule,
 		Floor: 50,
 		Bound: func(tier string) string {
 			k, e := coreK(tier)
@@ -180,6 +180,8 @@ func init() {
 		Items: func(tier string) []Item {
 			items := coreItems(tier, c12Scenario, func(a *Alpha) { a.WithPost = true; a.Lite = true }, []int{0, 1}, 2) // no k=3 triples: the PostTransform dimension already multiplies every unit by 6
 			items = append(items, c12ExtraItems()...)
+			// callbacks get the value of their own node also when the schema object met another destination type before
+			items = append(items, layoutItems(tier, "C12", "panic", "issues", "issues-missing", "destination", "callbacks")...)
 			return items
 		},
 	})
